@@ -613,3 +613,72 @@ Section Instance.
     intros; apply upd_pickups_frame; assumption.
   Qed.
 End Instance.
+
+(** ** 8. Problems spanning several optics: update_optics updates every optic that owns a variable
+    exactly once, and afterwards the pickups and solves of EVERY such optic are satisfied *)
+Lemma dedup_in (l : list Z) (o : Z) : In o (dedup l) <-> In o l.
+Proof.
+  induction l as [|x r IH]; [tauto|]. cbn [dedup].
+  destruct (existsb (Z.eqb x) r) eqn:E.
+  - rewrite IH. split; [right; assumption|]. intros [<-|H]; [|assumption].
+    apply existsb_exists in E. destruct E as [y [Hy Hxy]]. apply Z.eqb_eq in Hxy. subst; assumption.
+  - cbn [In]. rewrite IH. tauto.
+Qed.
+Lemma dedup_nodup (l : list Z) : NoDup (dedup l).
+Proof.
+  induction l as [|x r IH]; [constructor|]. cbn [dedup].
+  destruct (existsb (Z.eqb x) r) eqn:E; [assumption|]. constructor; [|assumption].
+  rewrite dedup_in. intros Hin.
+  assert (existsb (Z.eqb x) r = true) by (apply existsb_exists; exists x; split; [assumption|apply Z.eqb_refl]).
+  congruence.
+Qed.
+(** each optic owning a variable is updated exactly once, every other optic never *)
+Theorem update_optics_each_owner_once (owners : list Z) (o : Z) :
+  (In o owners -> count_occ Z.eq_dec (dedup owners) o = 1%nat)
+  /\ (~ In o owners -> count_occ Z.eq_dec (dedup owners) o = 0%nat).
+Proof.
+  split; intros H.
+  - apply NoDup_count_occ'; [apply dedup_nodup | apply dedup_in; assumption].
+  - apply count_occ_not_In. rewrite dedup_in. assumption.
+Qed.
+
+Section MultiOptic.
+  Variable u : Z -> store -> store.        (* Optic.update() of optic o, acting on the joint state of all lenses *)
+  Variable own : Z -> coord -> bool.       (* the parameters of optic o *)
+  Hypothesis P1 : forall o (s : store) c, own o c = false -> u o s c = s c.              (* writes its own lens only *)
+  Hypothesis P2 : forall o (s s' : store), (forall c, own o c = true -> s c = s' c) ->
+                  forall c, own o c = true -> u o s c = u o s' c.                         (* reads its own lens only *)
+  Hypothesis P3 : forall o (s : store), u o (u o s) = u o s.                              (* update() satisfies its pickups/solves *)
+  Hypothesis P4 : forall o o' c, o <> o' -> own o c = true -> own o' c = false.           (* lenses are disjoint *)
+
+  Lemma others_preserve (L : list Z) (o : Z) : forall s : store, ~ In o L ->
+    forall c, own o c = true -> update_each u L s c = s c.
+  Proof.
+    induction L as [|x L IH]; intros s Hn c Hc; [reflexivity|].
+    unfold update_each. cbn [fold_left]. fold (update_each u L (u x s)).
+    rewrite IH; [|intros H; apply Hn; right; assumption|assumption].
+    apply P1. apply (P4 o x); [intros E; apply Hn; left; auto|assumption].
+  Qed.
+
+  (** for EVERY duplicate-free enumeration of the owning optics (any iteration order of the set) *)
+  Theorem every_owner_satisfied (L : list Z) (o : Z) (s : store) :
+    NoDup L -> In o L -> u o (update_each u L s) = update_each u L s.
+  Proof.
+    intros Hnd Hin. apply in_split in Hin. destruct Hin as [L1 [L2 ->]].
+    apply NoDup_remove_2 in Hnd.
+    assert (Hn2 : ~ In o L2) by (intros H; apply Hnd; apply in_or_app; right; assumption).
+    unfold update_each. rewrite fold_left_app. cbn [fold_left].
+    set (s1 := fold_left (fun (s0 : store) (o0 : Z) => u o0 s0) L1 s).
+    fold (update_each u L2 (u o s1)). set (fin := update_each u L2 (u o s1)).
+    apply functional_extensionality. intros c. destruct (own o c) eqn:Hc.
+    - assert (Hag : forall d, own o d = true -> fin d = u o s1 d) by (intros d Hd; apply (others_preserve L2 o); assumption).
+      rewrite (P2 o fin (u o s1) Hag c Hc). rewrite P3. symmetry. apply Hag. assumption.
+    - apply P1. assumption.
+  Qed.
+
+  Theorem update_optics_satisfies_every_owner (owners : list Z) (o : Z) (s : store) :
+    In o owners -> u o (update_optics u owners s) = update_optics u owners s.
+  Proof.
+    intros H. unfold update_optics. apply every_owner_satisfied; [apply dedup_nodup | apply dedup_in; assumption].
+  Qed.
+End MultiOptic.
